@@ -405,6 +405,8 @@ tpt_msg_bsend_ex(tp_p tp, tpt_p src, uint32_t flags,
 			error = tpt_msg_send(tp_thread_get(tp, 0), src, flags, msg_cb, udata);
 			if (0 == error) {
 				msg_data_s.send_msg_cnt ++;
+			} else {
+				msg_data_s.error_cnt ++;
 			}
 		} else { /* Cant async call from self. */
 			msg_cb(src, udata);
